@@ -517,7 +517,14 @@ class DataFormat(object):
         if self.format == FORMAT_DELIMITED:
             if self.line_delimiter is not None:
                 check_distinct(KEY_ESCAPE_CHARACTER, KEY_LINE_DELIMITER)
+            check_distinct(KEY_ESCAPE_CHARACTER, KEY_ITEM_DELIMITER)
             check_distinct(KEY_ITEM_DELIMITER, KEY_LINE_DELIMITER)
+            if self.item_delimiter in ("\n", "\r"):
+                # The reader always ends a row at any line feed or carriage return.
+                raise errors.InterfaceError(
+                    "'%s' is %s but must be different from any line delimiter"
+                    % (KEY_ITEM_DELIMITER, _compat.text_repr(self.item_delimiter))
+                )
             check_distinct(KEY_ITEM_DELIMITER, KEY_QUOTE_CHARACTER)
             check_distinct(KEY_LINE_DELIMITER, KEY_QUOTE_CHARACTER)
         self._is_valid = True
